@@ -12,7 +12,8 @@ RULE = ('generated documents (twin profile favoured so that names repeat); searc
         'nodes of that name (resp. text/opening) strictly inside the root, reached through bodies, items, math, groups '
         'and argument groups; find == first of find_all or None; count == len; attribute access == find. '
         'Non-trivial = a queried name occurs >=2x in >=2 container kinds, or inside an argument group at depth >=2, or '
-        'the root is not the document; distinct by source')
+        'the root is not the document; distinct by source'
+        '. Also: homogeneous chains nested 45..270 deep - find_all / count / find by closed form (all non-trivial)')
 ASSUMPTIONS = [
     'the order of find_all is not part of the statement: results are compared as multisets of source offsets (find_all[0] defines find)',
     "not queried: names containing '{' or '[' (they are full-expression syntax), TexSoup's internal names for unnamed regions "
